@@ -28,7 +28,7 @@ class ScriptedServer(refms.RefServer):
 # ---------------------------------------------------------------------------------------------
 # reply grammar (bounded exhaustive)
 
-RCODES = [None, b"QUOTA", b"QUOTA/MAXSIZE", b'TAG "x"', b"WARNINGS", b'TAG "{7}"']
+RCODES = [None, b"QUOTA", b"QUOTA/MAXSIZE", b'TAG "x"', b"WARNINGS", b'TAG "{7}"', b"NONEXISTENT", b"ACTIVE"]
 TEXTS = [None, ("q", b"x y"), ("q", b'a"b\\c'), ("q", b""), ("l", b"lit text"), ("l", b"two\r\nlines"), ("q", b"\xc3\xa9t\xc3\xa9"),
          ("q", b"variable ${1} used, {2} of 5"), ("l", b"{3}"),
          ("l", b"ends in a line break\r\n"), ("l", b" padded \t"), ("q", b" lead and trail ")]  # text is data: nothing may be trimmed from it
